@@ -163,9 +163,9 @@ func typeInv(t types.Type, v *Term, alloc *Term) *Term {
 	switch u := t.Underlying().(type) {
 	case *types.Pointer, *types.Map, *types.Chan:
 		if alloc != nil {
-			return And(Le(IntLit(0), v), Lt(v, alloc))
+			return And(Le(IntLit(0), v), Lt(v, alloc), refTyped(t, v))
 		}
-		return Le(IntLit(0), v)
+		return And(Le(IntLit(0), v), refTyped(t, v))
 	case *types.Interface, *types.Signature:
 		return Le(IntLit(0), v)
 	case *types.Slice:
@@ -287,6 +287,20 @@ func strAxioms(used map[*Decl]bool) []*Term {
 		k := BoundVar("sk", SInt)
 		out = append(out, Forall([]*Term{x, i, j, k}, Implies(And(ok, Le(IntLit(0), k), Lt(k, Sub(j, i))), Eq(strAt(sub, k), strAt(x, Add(i, k)))), []*Term{strAt(sub, k)}))
 		out = append(out, Forall([]*Term{x}, Eq(App("str.sub", SStr, x, IntLit(0), strLen(x)), x), []*Term{App("str.sub", SStr, x, IntLit(0), strLen(x))}))
+	}
+	for _, nm := range []string{"std.strings.Index", "std.strings.LastIndex"} {
+		d, ok := declTab[nm]
+		if !ok || !used[d] {
+			continue
+		}
+		idx := App(nm, SInt, x, y)
+		occ := func(a, b, c *Term) *Term { return App("str.occursAt", SBool, a, b, c) }
+		out = append(out, Forall([]*Term{x, y}, And(Ge(idx, IntLit(-1)), Implies(Ge(idx, IntLit(0)), And(Le(idx, Sub(strLen(x), strLen(y))), occ(x, y, idx)))), []*Term{idx}))
+		if nm == "std.strings.LastIndex" {
+			out = append(out, Forall([]*Term{x, y, j}, Implies(And(occ(x, y, j), Ge(j, IntLit(0))), And(Le(j, idx), Ge(idx, IntLit(0)))), []*Term{occ(x, y, j), idx}))
+		} else {
+			out = append(out, Forall([]*Term{x, y, j}, Implies(And(occ(x, y, j), Ge(j, IntLit(0))), And(Ge(j, idx), Ge(idx, IntLit(0)))), []*Term{occ(x, y, j), idx}))
+		}
 	}
 	if d, ok := declTab["str.prefixof"]; ok && used[d] {
 		pf := App("str.prefixof", SBool, x, y)
